@@ -42,3 +42,28 @@ pub proof fn lemma_wf_filter_from_layout(out: Seq<u8>, len: int, base: int, n: i
         assert(u16_at(ft, off - base) == u16_at(out, off));
     }
 }
+
+// A write confined to [a, e) that lies at or below the tag-section length slot leaves every finished
+// tag, and every 16-bit field outside [a, e), as it was.
+pub proof fn lemma_ftags_frame_below(b: Seq<u8>, b2: Seq<u8>, base: int, n: int, limit: int, a: int, e: int)
+    requires b2.len() == b.len(), limit <= b.len(), 0 <= base, 0 <= n, 0 <= a <= e <= base + 2, e <= b.len(),
+        forall|i: int| 0 <= i < b.len() && !(a <= i < e) ==> #[trigger] b2[i] == b[i],
+        forall|j: int| 0 <= j < n ==> #[trigger] ftag_done(b, base, j, n, limit),
+    ensures
+        forall|j: int| 0 <= j < n ==> #[trigger] ftag_done(b2, base, j, n, limit),
+        forall|p: int| e <= p && p + 2 <= b.len() ==> #[trigger] u16_at(b2, p) == u16_at(b, p),
+        forall|p: int| 0 <= p && p + 2 <= a ==> #[trigger] u16_at(b2, p) == u16_at(b, p),
+{
+    assert forall|p: int| e <= p && p + 2 <= b.len() implies #[trigger] u16_at(b2, p) == u16_at(b, p) by {
+        assert(b2.subrange(p, p + 2) =~= b.subrange(p, p + 2));
+    }
+    assert forall|p: int| 0 <= p && p + 2 <= a implies #[trigger] u16_at(b2, p) == u16_at(b, p) by {
+        assert(b2.subrange(p, p + 2) =~= b.subrange(p, p + 2));
+    }
+    assert forall|j: int| 0 <= j < n implies #[trigger] ftag_done(b2, base, j, n, limit) by {
+        assert(ftag_done(b, base, j, n, limit));
+        let offj = base + u16_at(b, base + 4 + 2 * j);
+        lemma_so_mono(b, offj + 2, 0, u16_at(b, offj));
+        lemma_ftag_done_frame(b, b2, base, j, n, limit);
+    }
+}
